@@ -302,7 +302,8 @@ class GeminiClient:
 
             # Only follow gemini:// redirects (per Gemini best practices)
             # Return non-gemini redirects as-is, letting caller decide
-            if not redirect_url.startswith("gemini://"):
+            # (the scheme is case-insensitive: "GEMINI://host/" is a gemini URL)
+            if not redirect_url.lower().startswith("gemini://"):
                 return response
 
             # Add current URL to chain and follow redirect
